@@ -113,13 +113,13 @@ func genGlobals(p *pkgInfo) *leanFile {
 			case *ast.AssignStmt:
 				for _, l := range par.Lhs {
 					if l == ast.Expr(id) {
-						writes = append(writes, storeEntry{fn, normText(p.text(par), 72), "global"})
+						writes = append(writes, storeEntry{fn, storeNormText(p.text(par), 72), "global"})
 						return true
 					}
 				}
 			case *ast.IncDecStmt:
 				if par.X == ast.Expr(id) {
-					writes = append(writes, storeEntry{fn, normText(p.text(par), 72), "global"})
+					writes = append(writes, storeEntry{fn, storeNormText(p.text(par), 72), "global"})
 					return true
 				}
 			case *ast.UnaryExpr:
